@@ -7,4 +7,4 @@ for d in /tmp/mut_*_out; do
   id=$(basename $d | sed 's/^mut_//; s/_out$//')
   if [ ! -d seeded/$id ]; then mkdir -p seeded/$id; cp $d/patch.diff $d/demo.py $d/meta.json seeded/$id/; new="$new $id"; fi
 done
-[ -n "$new" ] && tools/run_seeds.py $new
+[ -n "$new" ] && printf '%s\n' $new | xargs -P ${INGEST_JOBS:-4} -n 1 tools/run_seeds.py
